@@ -498,6 +498,19 @@ pub fn generate(prop: &str, tier: &str, r: &mut Rng, out: &mut Vec<String>) -> G
             }
             GenInfo { rule: "both real clients against a scripted loopback HTTP/1.1 server: seeded requests (random messages, payloads from a fragmenting source, 0-3 custom headers, Basic credentials incl. ':' and UTF-8, paths with queries) answered with status 200 under content-length / chunked / close-delimited framing and random write fragmentation; every status 400-599; the connection cut at every offset inside header+attributes of 5 responses under each framing; a stalled server against a request timeout; 16 concurrent senders per client. The captured request and the returned value are compared with the model's prediction and with direct oracles; non-trivial = distinct exchanges".into(), exhaustive: false }
         }
+        "C12" => {
+            let be = crate::tls::backend();
+            for client in ["blocking", "async"] {
+                for ignore in ["unset", "false", "true"] {
+                    for root in ["none", "pem", "der", "unrelated"] {
+                        for cert in ["valid", "wrongname", "expired", "selfsigned", "unknownca"] {
+                            out.push(format!("tlscase {} {} {} {} {}", be, client, ignore, root, cert));
+                        }
+                    }
+                }
+            }
+            GenInfo { rule: "the complete matrix {blocking, async} x {ignore flag unset, false, true} x {no extra root, correct root as PEM, as DER, unrelated root} x server certificate {valid for host, wrong host name, expired, self-signed, signed by unknown CA} for the TLS backend this harness build links (both backends are run and merged by run.py): 120 cells per backend, each a real handshake against an in-process rustls server with certificates generated by the openssl CLI; every cell is distinct and non-trivial".into(), exhaustive: true }
+        }
         "C04" => {
             let n = if thorough { 200_000 } else { 3_000 };
             let lim = crate::wiregen::WLimits { max_depth: if thorough { 6 } else { 4 }, malformed_per_mille: 8, boundary: true };
